@@ -51,10 +51,19 @@ structure Cfg where
   /-- F29: 24 / 25 read "not underline" / "not blink" only, leaving the double underline (21) / rapid blink (6)
   on, where ECMA-48 says "not underlined (neither singly nor doubly)" / "steady"; repaired: both are cleared. -/
   offSingle : Bool
+  /-- F31: `line.rsplit("\r", 1)[-1]` keeps what follows the LAST carriage return, so a line that ENDS in CR — every
+  line of CR LF terminated output — decodes to nothing; repaired: trailing CRs are stripped first
+  (`line.rstrip("\r").rsplit("\r", 1)[-1]`). -/
+  crErases : Bool
+  /-- F32: the first alternative of `re_ansi` is `\x1b\[(.*?)m`: ANY `ESC [` is taken for the start of an SGR sequence
+  reaching to the next `m`, so a CSI sequence with another final byte (`ESC[?25l`, `ESC[2K`, `ESC[1A`) swallows the text
+  that follows it up to the next letter m; repaired: `\x1b\[([0-9;:]*)m` — other CSI sequences stay in the text, where
+  `re_csi` removes them. -/
+  sgrLazy : Bool
 deriving Repr, DecidableEq
 
-def Cfg.old : Cfg := ⟨true, true, true, true, true⟩
-def Cfg.repaired : Cfg := ⟨false, false, false, false, false⟩
+def Cfg.old : Cfg := ⟨true, true, true, true, true, true, true⟩
+def Cfg.repaired : Cfg := ⟨false, false, false, false, false, false, false⟩
 
 /-- The variant of the Style model (C06) the decoder's style operations are taken at: the repaired one.  Only the
 five compared fields of a style and `_null` are observed here; on the decoder's inputs (table entries without `rgb(…)`
@@ -117,8 +126,16 @@ def partitionAt (sep : Char) : List Char → List Char × Bool × List Char
       (c :: p.1, p.2.1, p.2.2)
 
 /-- `line.rsplit("\r", 1)[-1]`: what follows the last carriage return. -/
-def afterLastCR (s : List Char) : List Char :=
+def afterLastCRAsFound (s : List Char) : List Char :=
   s.foldl (fun acc c => if c = '\r' then [] else acc ++ [c]) []
+
+/-- `line.rstrip("\r")` -/
+def rstripCR (s : List Char) : List Char := (s.reverse.dropWhile (· = '\r')).reverse
+
+/-- the line `decode_line` goes on with: as found `line.rsplit("\r", 1)[-1]`, repaired (F31)
+`line.rstrip("\r").rsplit("\r", 1)[-1]` -/
+def afterLastCR (asFound : Bool) (s : List Char) : List Char :=
+  if asFound then afterLastCRAsFound s else afterLastCRAsFound (rstripCR s)
 
 /-- the characters `str.splitlines()` breaks at (besides the pair CR LF) -/
 def isLineSep (c : Char) : Bool :=
@@ -151,9 +168,20 @@ deriving Repr, DecidableEq
 
 /-- `(.*?)m` at the start of `s`: the lazy group takes everything up to the first `m`, and `.` does
 not match a newline.  `none` = no match. -/
-def findM : List Char → Option (List Char)
+def findLazyM : List Char → Option (List Char)
   | [] => none
-  | c :: r => if c = 'm' then some [] else if c = '\n' then none else (findM r).map (c :: ·)
+  | c :: r => if c = 'm' then some [] else if c = '\n' then none else (findLazyM r).map (c :: ·)
+
+/-- `[0-9;:]` (a regex class on a `str` pattern: ASCII digits only) -/
+def isSgrParam (c : Char) : Bool := (48 ≤ c.toNat && c.toNat ≤ 57) || c == ';' || c == ':'
+
+/-- `([0-9;:]*)m` at the start of `s` (repaired F32): greedy, and `m` is not in the class, so no backtracking. -/
+def findSgrM : List Char → Option (List Char)
+  | [] => none
+  | c :: r => if c = 'm' then some [] else if isSgrParam c then (findSgrM r).map (c :: ·) else none
+
+/-- the group of the first alternative of `re_ansi` after `ESC [` -/
+def findM (lazy : Bool) (s : List Char) : Option (List Char) := if lazy then findLazyM s else findSgrM s
 
 /-- `(.*?)\x1b\\` at the start of `s`. -/
 def findST : List Char → Option (List Char)
@@ -201,27 +229,27 @@ def flushPlain (acc : List Char) : List Token := if acc.isEmpty then [] else [.p
 
 /-- `re_ansi.finditer` with the text between matches; `k` counts characters of the current match
 still to be skipped, `acc` is the text since the end of the last match. -/
-def tokAux : List Char → Nat → List Char → List Token
+def tokAux (lazy : Bool) : List Char → Nat → List Char → List Token
   | [], _, acc => flushPlain acc
-  | _ :: r, k + 1, acc => tokAux r k acc
+  | _ :: r, k + 1, acc => tokAux lazy r k acc
   | c :: r, 0, acc =>
     if c = ESC then
       match r with
       | d :: r' =>
         if d = '[' then
-          match findM r' with
-          | some body => flushPlain acc ++ .sgr body :: tokAux r (body.length + 2) []
-          | none => tokAux r 0 (acc ++ [c])
+          match findM lazy r' with
+          | some body => flushPlain acc ++ .sgr body :: tokAux lazy r (body.length + 2) []
+          | none => tokAux lazy r 0 (acc ++ [c])
         else if d = ']' then
           match findST r' with
-          | some body => flushPlain acc ++ .osc body :: tokAux r (body.length + 3) []
-          | none => tokAux r 0 (acc ++ [c])
-        else tokAux r 0 (acc ++ [c])
-      | [] => tokAux r 0 (acc ++ [c])
-    else tokAux r 0 (acc ++ [c])
+          | some body => flushPlain acc ++ .osc body :: tokAux lazy r (body.length + 3) []
+          | none => tokAux lazy r 0 (acc ++ [c])
+        else tokAux lazy r 0 (acc ++ [c])
+      | [] => tokAux lazy r 0 (acc ++ [c])
+    else tokAux lazy r 0 (acc ++ [c])
 
 /-- `_ansi_tokenize(ansi_text)` -/
-def tokenize (s : List Char) : List Token := tokAux s 0 []
+def tokenize (lazy : Bool) (s : List Char) : List Token := tokAux lazy s 0 []
 
 /-! ## `AnsiDecoder` -/
 
@@ -369,7 +397,7 @@ def decodeToks (cfg : Cfg) : Style → List Token → Style × Except DecErr (Li
 
 /-- `AnsiDecoder.decode_line(line)` from decoder state `st`. -/
 def decodeLine (cfg : Cfg) (st : Style) (line : List Char) : Style × Except DecErr (List Run) :=
-  decodeToks cfg st (tokenize (afterLastCR line))
+  decodeToks cfg st (tokenize cfg.sgrLazy (afterLastCR cfg.crErases line))
 
 /-- Lines decoded one after the other with the style carried over; stops at the first exception. -/
 def decodeMany (cfg : Cfg) : Style → List (List Char) → Style × Except DecErr (List (List Run))
